@@ -19,4 +19,21 @@ theorem C15_last (ids : List Int) (h : ∀ x ∈ ids, FIRST_INDEX ≤ x) :
       ∀ i (hi : i < ids.length), (m[i]? = some true ↔ ∃ j, ∃ hj : j < ids.length, i < j ∧ ids[j] = ids[i]) :=
   _root_.Peppi.C15_last ids h
 
+/- from `Peppi.RollbacksProof` -/
+theorem C15_first_nodup (ids : List Int) (h : ∀ x ∈ ids, FIRST_INDEX ≤ x) (hnd : ids.Nodup) :
+    ∃ m, rollbacks .exceptFirst ids = .ok m ∧ m.length = ids.length ∧ ∀ b ∈ m, b = false :=
+  _root_.Peppi.C15_first_nodup ids h hnd
+
+/- from `Peppi.RollbacksProof` -/
+theorem C15_first_keeps_first (ids : List Int) (h : ∀ x ∈ ids, FIRST_INDEX ≤ x) (i : Nat) (hi : i < ids.length)
+    (hfirst : ∀ j, ∀ hj : j < i, ids[j] ≠ ids[i]) :
+    ∃ m, rollbacks .exceptFirst ids = .ok m ∧ m[i]? = some false :=
+  _root_.Peppi.C15_first_keeps_first ids h i hi hfirst
+
+/- from `Peppi.RollbacksProof` -/
+theorem C15_last_keeps_last (ids : List Int) (h : ∀ x ∈ ids, FIRST_INDEX ≤ x) (i : Nat) (hi : i < ids.length)
+    (hlast : ∀ j, ∀ hj : j < ids.length, i < j → ids[j] ≠ ids[i]) :
+    ∃ m, rollbacks .exceptLast ids = .ok m ∧ m[i]? = some false :=
+  _root_.Peppi.C15_last_keeps_last ids h i hi hlast
+
 end Peppi.Props.C15
